@@ -35,7 +35,8 @@ class C03(RecorderProp):
             sites['o%d' % i] = {'kind': 'out', 'alias': rng.choice(OUT_ALIASES), 'flavor': rng.choice(['instance', 'static']),
                                 'nargs': rng.choice([0, 1, 2]), 'kwnames': rng.sample(['k', 'opt'], rng.choice([0, 0, 1])),
                                 'handler': rng.choice(['', '', 'wrap']), 'failOnMissing': True, 'default': None,
-                                'body': [{'op': 'ret', 'e': const(rng.choice([None, {'s': 'ack'}, {'i': '1'}]))}]}
+                                'body': ([{'op': 'raise', 't': rng.choice(['ValueError', 'KeyError'])}] if rng.random() < 0.2 else [])
+                                + [{'op': 'ret', 'e': const(rng.choice([None, {'s': 'ack'}, {'i': '1'}]))}]}
         ncalls = rng.choice([1, 2, 3, 4, 6, 8]) if rng.random() < 0.8 else rng.randint(10, 14)
         script = []
         for j in range(ncalls):
@@ -55,12 +56,20 @@ class C03(RecorderProp):
         final = {'op': 'ret', 'e': const(rand_value(rng, 1))} if rng.random() < 0.8 else {'op': 'raise', 't': 'ValueError'}
         script.append(final)
         edited = self.edit(rng, copy.deepcopy(script), sites)
+        runs = [{'run': 'op', 'cls': 'OpA', 'enabled': True, 'script': script, 'draws': [], 'clock': [1, 2]}]
+        if rng.random() < 0.3:
+            # an earlier playback that is aborted after it already sent outputs (newer code asks for something unrecorded)
+            outs = [st for st in script[:-1] if sites[st['s']]['kind'] == 'out'][:3]
+            sites['missing'] = {'kind': 'in', 'alias': 'not-recorded', 'flavor': 'instance', 'capture': 'all', 'resolver': None,
+                                'nargs': 0, 'kwnames': [], 'handler': '', 'runOriginal': False, 'substitute': None,
+                                'fallbacks': None, 'body': [{'op': 'ret', 'e': const(None)}]}
+            aborted = copy.deepcopy(outs) + [{'op': 'call', 's': 'missing', 'x': 'm', 'args': []}, {'op': 'reraise', 'x': 'm'},
+                                             {'op': 'ret', 'e': const(None)}]
+            runs.append({'run': 'play', 'cls': 'OpA', 'rec': 0, 'enabled': False, 'script': aborted, 'clock': [3, 3, 3]})
+        runs.append({'run': 'play', 'cls': 'OpA', 'rec': 0, 'enabled': rng.random() < 0.5, 'script': edited, 'clock': [5, 6, 7]})
         return {'cassette': rng.choice(['memory', 'memory', 'file', 's3']),
                 'classes': {'OpA': {'params': None, 'classLevel': rng.random() < 0.2, 'hasExtractor': False}},
-                'sites': sites,
-                'runs': [{'run': 'op', 'cls': 'OpA', 'enabled': True, 'script': script, 'draws': [], 'clock': [1, 2]},
-                         {'run': 'play', 'cls': 'OpA', 'rec': 0, 'enabled': rng.random() < 0.5, 'script': edited,
-                          'clock': [5, 6, 7]}]}
+                'sites': sites, 'runs': runs}
 
     def edit(self, rng, script, sites):
         outs = [i for i, st in enumerate(script[:-1]) if sites[st['s']]['kind'] == 'out']
@@ -127,8 +136,8 @@ class C03(RecorderProp):
 
     def oracle(self, case, impl):
         fails = []
-        rec_run, play_run = case['runs']
-        r = impl[1]
+        rec_run, play_run = case['runs'][0], case['runs'][-1]
+        r = impl[-1]
         if r['result'][0] != 'played':
             return ['replay ended %r' % (r['result'],)]
         want_rec = self.sent(rec_run['script'], case['sites'])
@@ -155,7 +164,7 @@ class C03(RecorderProp):
         return any(sp['kind'] == 'out' for sp in case['sites'].values())
 
     def shrink(self, case):
-        for ri in (0, 1):
+        for ri in range(len(case['runs'])):
             sc = case['runs'][ri]['script']
             for i in range(len(sc) - 1):
                 new = copy.deepcopy(case)
